@@ -270,9 +270,10 @@ example : (match Emu.run .nosv P0 Emu.init (demoNosv.take 4) with
 example : (match Emu.run .nosv P0 Emu.init (demoNosv.take 6) with
     | .ok ε => (ε.ch 0, ε.ch 1) | .error _ => (Chans.null, Chans.null))
     = (Chans.null, ⟨some 10, some (gidOf 123456), some 3, some 7, some 3⟩) := by decide
-/-- Nanos6 refuses the relaxed nesting without the subsystem change (duplicate push) … -/
+/-- Nanos6 accepts the relaxed nesting made of task events alone (since the repair 29aa1a0 its
+    subsystem channel allows the second ST_TASK_BODY push; the flag is regenerated from the source) … -/
 example : eaccepts .nanos6 P0 [.typeCreate 1 99 true, .taskCreate false 1 1, .taskCreate false 2 1,
-    .task 0 .x 1 0, .task 0 .x 2 0] = false := by decide
+    .task 0 .x 1 0, .task 0 .x 2 0] = true := by decide
 /-- … nOS-V refuses nesting over a running body, pausing a parallel body, a body id on a
     non-parallel task and running a body that is running on another thread. -/
 example : eaccepts .nosv P0 (demoNosv.take 5 ++ [.task 0 .x 10 4]) = false := by decide
